@@ -8,6 +8,7 @@ import CBV.Model.C01
 import CBV.Lemmas.C01Own
 import CBV.Lemmas.C01Sched
 import CBV.Model.C01Order
+import CBV.Gen.TC01
 
 namespace CBV.Prop
 
